@@ -8,14 +8,14 @@ TARGETS = ["Run.vo"]
 IMPORTS = "From VF Require Import Base Show Gen_Errors Status Run."
 ALLOWED_AXIOMS = []
 PROFILES = ["debug"]
-ASSUMPTIONS = ["device wired as examples/minimal_scpi.rs (VecDeque error queue, scpi_stb/scpi_cls/scpi_opc); "
+ASSUMPTIONS = ["device wired as examples/minimal_scpi.rs (the library VecErrorQueue as error queue, scpi_stb/scpi_cls/scpi_opc); "
                "message -> operation mapping by the template table of tools/props/statuslib.py (op-level model; the "
                "byte-level path is covered by C02/C04/C06/C07)"]
 
 
 def harness_line(c): return c
 def case_of_line(l): return l
-def obs(s): return s
+def obs(s): return statuslib.obs_fields(s, ('q', 'esr', 'h'))   # C13 constrains queue, ESR, hook count and the responses
 
 
 def nontrivial(c, impl):
@@ -37,9 +37,9 @@ RULE = ("histories of 5..30 messages mixing valid commands, every kind of invali
 def corpus():
     m = statuslib.msg_step
     return [
-        "dev " + "|".join([m([b"SYST:ERR?;SYST:ERR:COUN?;SYST:ERR:ALL?"]), m([b"*ERR -100;SYST:ERR?"]), m([b"syst:err:next?"]), m([b"SYST:ERR?"])]),
-        "dev " + "|".join([m([b"*ERR 1"]), m([b"*ERR -222"]), m([b"*ERR -410"]), m([b"SYST:ERR:COUN?"]), m([b"*ESR?;*ESR?"]), m([b"SYST:ERR:ALL?;SYST:ERR:COUN?"])]),
-        "dev " + "|".join([m([b"SYST:ERR?;FOO;SYST:ERR?"]), m([b"SYST:ERR:COUN?;*ESR?"]), m([b"SYST:ERR?;SYST:ERR?"])]),
+        "dev " + "|".join([m([b"SYST:ERR?;:SYST:ERR:COUN?;:SYST:ERR:ALL?"]), m([b"*ERR -100;:SYST:ERR?"]), m([b"syst:err:next?"]), m([b"SYST:ERR?"])]),
+        "dev " + "|".join([m([b"*ERR 1"]), m([b"*ERR -222"]), m([b"*ERR -410"]), m([b"SYST:ERR:COUN?"]), m([b"*ESR?;*ESR?"]), m([b"SYST:ERR:ALL?;COUN?"])]),
+        "dev " + "|".join([m([b"SYST:ERR?;:FOO;:SYST:ERR?"]), m([b"SYST:ERR:COUN?;*ESR?"]), m([b"SYST:ERR?;:SYST:ERR?"])]),
         "dev " + "|".join([m([b'*ERR -300,"say hi"']), m([b"SYST:ERR?"]), m([b"*OPC"]), m([b"SYST:ERR:ALL?;*ESR?"])]),
         "dev " + "|".join([m([b"*ESE"]), m([b"*ESE 1,2"]), m([b'*ESE "X"']), m([b"*ESE 256"]), m([b"*ESE 5V"]), m([b"SYST:ERR:ALL?"]), m([b"*ESR?"])]),
     ]
